@@ -413,7 +413,7 @@ class MelodyModel:
                 raise ValueError(f"Malformed or missing UUID for {target!r}")
 
         candidates = self._loader.xpath(
-            f"//*[@*[contains(., '#{uuid}')]"
+            f"//*[@*[name() != 'href' and contains(., '#{uuid}')]"
             f" | */@*[name() != 'href' and contains(., '#{uuid}')]]",
             roots=[
                 i.root
@@ -423,8 +423,11 @@ class MelodyModel:
         )
         # The root of a fragment is, in the complete tree, a child of the
         # element that holds its placeholder.
+        token = f"#{uuid}"
         for elem in list(candidates):
-            if elem.getparent() is None:
+            if elem.getparent() is None and any(
+                k != "href" and token in v for k, v in elem.attrib.items()
+            ):
                 owner = next(iter(self._loader.iterancestors(elem)), None)
                 if owner is not None:
                     candidates.append(owner)
